@@ -92,6 +92,8 @@ def label_array(labels, kind, ldtype=None):
     DimArray, see env gotchas); `ldtype` asks for a narrower / unsigned dtype of the same kind when every
     label is exactly representable in it"""
     vals = [dec_label(l, kind) for l in labels]
+    if kind == "i" and any(isinstance(v, float) for v in vals):
+        kind = "f"          # a non-integral request next to integer labels: never truncated by the harness
     if kind == "i":
         out = np.array(vals, dtype=np.int64).reshape(len(vals))
         if ldtype and ldtype.startswith(("uint", "int")) and len(vals):
